@@ -306,9 +306,9 @@ fn builder_cli_case() -> impl Strategy<Value = BuilderCliCase> {
 
 fn groups(g: &mut Groups) {
     PAINT.store(true, std::sync::atomic::Ordering::SeqCst);
-    g.prop("loop", 32_000, 400_000, || case(), check_case);
-    g.prop("twin_routes", 8_000, 200_000, || route_case(), check_route);
-    g.prop("builder_then_cli", 800, 10_000, || builder_cli_case(), check_builder_cli);
+    g.prop("loop", 32_000, 1_600_000, || case(), check_case);
+    g.prop("twin_routes", 8_000, 800_000, || route_case(), check_route);
+    g.prop("builder_then_cli", 800, 40_000, || builder_cli_case(), check_builder_cli);
     g.enumerate(
         "golden",
         |_| {
